@@ -125,6 +125,20 @@ func (c *Codec) CheckEncoding(obj interface{}, b []byte) {
 	if err != nil || !bytes.Equal(b, b2) {
 		c.report("determinism: second Marshal gave %x (err=%v), first %x", b2, err, b)
 	}
+	// encoding into memory the caller supplies (a recycled buffer): the bytes must not depend on
+	// what the buffer held before
+	if mt, ok := obj.(interface {
+		MarshalTo([]byte) (int, error)
+	}); ok {
+		for _, fill := range []byte{0x01, 0xff} {
+			buf := bytes.Repeat([]byte{fill}, m.Size())
+			n, err := mt.MarshalTo(buf)
+			if err != nil || n != len(b) || !bytes.Equal(buf[:n], b) {
+				c.report("determinism: MarshalTo into a buffer filled with %02x gave %x (n=%d, err=%v), Marshal gives %x", fill, buf, n, err, b)
+				break
+			}
+		}
+	}
 	var back gogoMsg
 	switch obj.(type) {
 	case *esdt.ESDigitalToken:
